@@ -91,6 +91,7 @@ def translator_validation(h, mir, native, seed, n_cases, log):
     if hasattr(h, 'setup_machine'):
         h.setup_machine(m, None, {})
     done = 0
+    skipped = 0
     allow_forks = getattr(h, 'VALIDATION_ALLOW_FORKS', False)
     for shape, inputs in cases:
         outs = []
@@ -112,13 +113,19 @@ def translator_validation(h, mir, native, seed, n_cases, log):
             work.extend(ctx.pending)
             npaths += 1
             if npaths > 500:
-                raise Unsupported('translator validation: too many paths for a concrete input')
+                # a concrete input whose nondeterministic environment (hash ties, message orders, random draws) forks too
+                # often to enumerate: not usable as a validation case
+                outs, panics, work = None, None, []
+                break
             if kind == 'infeasible':
                 continue
             if kind == 'violation' and payload.what.startswith('panic'):
                 panics.append(payload.what)
             else:
                 outs.append(ctx.final_outputs)
+        if outs is None:
+            skipped += 1
+            continue
         if npaths > 1 and not allow_forks:
             raise Unsupported('translator validation: concrete run forked on %r %r' % (shape, inputs))
         if not outs and not panics:
@@ -135,6 +142,10 @@ def translator_validation(h, mir, native, seed, n_cases, log):
                 raise Unsupported('translator validation: native outputs %r not produced by any MIRSE path on %r %r; '
                                   'MIRSE: %r' % (nat, shape, inputs, outs[:3]))
         done += 1
+    if skipped:
+        log.append('translator validation: %d concrete cases skipped (more than 500 environment forks)' % skipped)
+    if done == 0 and cases:
+        raise Unsupported('translator validation: no usable case')
     return done
 
 
